@@ -291,9 +291,16 @@ def merge_files(s, rng, tmpdir):
         docs.append(B.msg_doc('roStoryMove', tie, ids=[a], target=b))
         docs.append(B.msg_doc('roStoryMove', tie, ids=[b], target=a))
         docs.append(B.msg_doc('roStorySend', tie, story_ref=a, body=[B.E('p', 'tie')], fields=['BODY']))
+    if rng.random() < 0.2 and len(docs) > 1:
+        # message IDs are signed integers: negative ones, zero, and ones beyond 32 / 64 bits sort where their value says
+        import re as _re
+        for j_ in rng.sample(range(1, len(docs)), min(len(docs) - 1, rng.randint(1, 2))):
+            docs[j_] = _re.sub(r'<messageID>[^<]*</messageID>',
+                               '<messageID>%s</messageID>' % rng.choice(['-7', '-12', '0', '-1', str(2 ** 31 + 5), str(2 ** 64 + 9)]), docs[j_], 1)
+        s.hist['cli:merge:signed-or-huge-message-ids'] += 1
     r = rng.random()
     if r < 0.6:
-        docs.append(B.msg_doc('roDelete', 500))
+        docs.append(B.msg_doc('roDelete', 500 if rng.random() < 0.8 else 2 ** 65))
     flavour = 'plain'
     r = rng.random()
     if r < 0.1:
